@@ -110,3 +110,36 @@ func (c *symConn) lastIsCease() bool {
 func (c *symConn) wroteOpenFirst() bool {
 	return len(c.writes) >= 1 && verifAt(c.writes[0], 18) == openMessageType
 }
+
+// ---------- listener model ----------
+
+type symListener struct {
+	ch     chan net.Conn
+	closed chan struct{}
+	isClosed bool
+	accepts int
+}
+
+func newSymListener() *symListener {
+	return &symListener{ch: make(chan net.Conn), closed: make(chan struct{})}
+}
+
+func (l *symListener) Accept() (net.Conn, error) {
+	select {
+	case c := <-l.ch:
+		l.accepts++
+		return c, nil
+	case <-l.closed:
+		return nil, errSymClosed
+	}
+}
+
+func (l *symListener) Close() error {
+	if !l.isClosed {
+		l.isClosed = true
+		close(l.closed)
+	}
+	return nil
+}
+
+func (l *symListener) Addr() net.Addr { return symAddr{"0.0.0.0:179"} }
